@@ -169,7 +169,7 @@ const INT_LITS: &[&str] = &[
 const FLOAT_LITS: &[&str] = &["1e308", "-1e308", "1e309", "1e-320", "1.7976931348623157e308", "0.1", "-0.0", "1e18", "9.3e18", "1e19", "-9.3e18", "0.5", "1e38", "3.5e38", "1e-46"];
 const STR_LITS: &[&str] = &[
     "''", "'a'", "'abc'", "' '", "'é'", "'日本語'", "'aé'", "'😀x'", "'12'", "'-5'", "'1e5'", "'1e999'", "'abc12'", "'9223372036854775808'", "'NULL'", "'%'", "'_'", "'a%b_'", "'2024-01-01'",
-    "'2024-02-30'", "'0000-00-00'", "'12:00:00'", "'2024-01-01 12:00:00'", "'99999-01-01'", "'1 DAY'", "'true'", "'İ'", "'ß'", "'\u{0}'",
+    "'2024-02-30'", "'0000-00-00'", "'12:00:00'", "'DAY'", "'MONTH'", "'YEAR'", "'HOUR'", "'SECOND'", "'2024-01-01 12:00:00'", "'99999-01-01'", "'1 DAY'", "'true'", "'İ'", "'ß'", "'\u{0}'",
 ];
 const TYPES: &[&str] = &[
     "INTEGER", "SMALLINT", "BIGINT", "VARCHAR(5)", "VARCHAR(0)", "VARCHAR(1)", "CHAR(3)", "CHAR(0)", "DOUBLE PRECISION", "REAL", "FLOAT", "NUMERIC(10, 2)", "NUMERIC(1, 0)", "NUMERIC(38, 10)",
@@ -215,6 +215,11 @@ pub const GROUPS: &[(&str, &[&str])] = &[
     ("substring_multibyte", &["exec.panic[vibesql-executor/src/evaluator/functions/string/substring.rs|byte index  is not a char boundary; it is inside '' (bytes .]"]),
     ("trim_empty_removal", &["hang.cpu.exec.trim_empty_removal"]),
     ("ntile_empty", &["exec.panic[vibesql-executor/src/select/window/evaluation.rs|index out of bounds: the len is  but the index is]"]),
+    ("interval_extreme", &["exec.panic[crate:chrono-0.4.39/src/naive/date/mod.rs|`` overflowed]", "exec.panic[crate:chrono-0.4.39/src/lib.rs|TimeDelta::days out of bounds]"]),
+    ("cast_multibyte", &["exec.panic[vibesql-executor/src/evaluator/casting.rs|byte index  is not a char boundary; it is inside '' (bytes .]"]),
+    ("locate_multibyte", &["exec.panic[vibesql-executor/src/evaluator/functions/string/search.rs|byte index  is not a char boundary; it is inside '' (bytes .]"]),
+    ("locate_min", &["exec.panic[vibesql-executor/src/evaluator/functions/string/search.rs|attempt to subtract with overflow]"]),
+    ("abs_min", &["exec.panic[rust:core/src/num/mod.rs|attempt to negate with overflow]"]),
 ];
 
 /// Groups whose trigger is excluded in ALL workers while a signature of the group is open (not
@@ -243,6 +248,18 @@ pub const GROUP_TRIGGERS: &[(&str, &[&str])] = &[
     ("substring_multibyte", &["fn:SUBSTR", "world:nonascii"]),
     ("trim_empty_removal", &["trim_empty_removal"]),
     ("ntile_empty", &["window:NTILE"]),
+    ("interval_extreme", &["interval_arith"]),
+    ("interval_extreme", &["fn:DATE_ADD"]),
+    ("interval_extreme", &["fn:DATE_SUB"]),
+    ("interval_extreme", &["fn:ADDDATE"]),
+    ("cast_multibyte", &["cast", "lit:nonascii"]),
+    ("cast_multibyte", &["cast", "world:nonascii"]),
+    ("cast_multibyte", &["fn:CAST", "lit:nonascii"]),
+    ("cast_multibyte", &["fn:CAST", "world:nonascii"]),
+    ("locate_multibyte", &["fn:LOCATE", "lit:nonascii"]),
+    ("locate_multibyte", &["fn:LOCATE", "world:nonascii"]),
+    ("locate_min", &["fn:LOCATE", "world:int_extreme"]),
+    ("abs_min", &["fn:ABS", "world:int_extreme"]),
 ];
 
 pub fn avoiding_group(cfg: &GenCfg, group: &str) -> bool {
@@ -431,6 +448,12 @@ impl<'a> W<'a> {
                         self.feat("fn:POSITION");
                         format!("POSITION({} IN {})", self.strish(t, scope), self.strish(t, scope))
                     }
+                    3 if t.chance(1, 2) => {
+                        self.feat("interval_arith");
+                        let f = pk(t, &["DATE_ADD", "DATE_SUB", "ADDDATE", "SUBDATE"]);
+                        self.feat(&format!("fn:{}", f));
+                        format!("{}({}, INTERVAL {} {})", f, self.strish(t, scope), self.intish(t, scope), pk(t, &["DAY", "MONTH", "YEAR", "HOUR", "SECOND", "WEEK", "MINUTE"]))
+                    }
                     3 => {
                         self.feat("interval_arith");
                         format!("({} {} INTERVAL {} {})", self.expr(t, scope, 0), pk(t, &["+", "-"]), pk(t, &["'1'", "'-1'", "'99999999999'", "'9223372036854775807'", "'1-6'", "'x'", "''", "'1.5'"]), pk(t, &["DAY", "MONTH", "YEAR", "HOUR", "SECOND", "YEAR TO MONTH"]))
@@ -453,7 +476,7 @@ impl<'a> W<'a> {
         }
     }
     fn intish(&mut self, t: &mut Tape, scope: &[&'a Tab]) -> String {
-        match t.weighted(&[3, 3, 1, 1]) {
+        match t.weighted(&[3, 3, 3, 1]) {
             0 => t.range(-2, 6).to_string(),
             1 => {
                 self.feat("lit:int_extreme");
@@ -1286,59 +1309,38 @@ impl C24 {
     }
 }
 
-fn triggers_hit(cfg: &GenCfg, feats: &[String]) -> bool {
-    let has = |need: &[&str]| need.iter().all(|n| feats.iter().any(|f| f == n));
-    KNOWN_TRIGGERS.iter().any(|(sig, need)| cfg.avoiding(sig) && has(need)) || GROUP_TRIGGERS.iter().any(|(g, need)| avoiding_group(cfg, g) && has(need))
-}
+impl C24 {
+    /// Fixed small schema (libFuzzer `exec` target): only indexes, history and the wild statement
+    /// come from the tape, so byte-level mutations stay local.
+    pub fn build_fixed(&self, t: &mut Tape, cfg: &GenCfg) -> Case {
+        let ascii = avoiding_group(cfg, "nonascii_store");
+        let col = |n: &str, ty: ColTy| ColDef { name: n.to_string(), ty, not_null: false };
+        let mut t0 = TableDef { name: "t0".into(), cols: vec![col("t0_a", ColTy::Int), col("t0_b", ColTy::Bigint), col("t0_c", ColTy::Varchar(12)), col("t0_d", ColTy::Double)], ..Default::default() };
+        t0.pk = vec![0];
+        t0.cols[0].not_null = true;
+        let t1 = TableDef { name: "t1".into(), cols: vec![col("t1_a", ColTy::Smallint), col("t1_b", ColTy::Numeric(10, 2)), col("t1_c", ColTy::Char(4)), col("t1_d", ColTy::Int)], ..Default::default() };
+        let s = |x: &str| V::Varchar(if ascii && !x.is_ascii() { "zz".to_string() } else { x.to_string() });
+        let rows0 = vec![
+            vec![V::Int(1), V::Int(i64::MAX), s("a"), V::dbl(1.5)],
+            vec![V::Int(2), V::Int(i64::MIN + 1), s(""), V::dbl(1e308)],
+            vec![V::Int(3), V::Null, s("aé"), V::Null],
+            vec![V::Int(4), V::Int((1 << 53) + 1), s("B"), V::dbl(-0.5)],
+            vec![V::Int(5), V::Int(3037000500), s("abc"), V::dbl(16777217.0)],
+        ];
+        let rows1 = vec![
+            vec![V::Int(7), V::dbl(2.5), s("ab"), V::Int(i32::MAX as i64)],
+            vec![V::Int(i16::MAX as i64), V::dbl(-99999999.99), s("日本"), V::Int(-1)],
+            vec![V::Null, V::Null, V::Null, V::Null],
+            vec![V::Int(0), V::dbl(0.0), s(""), V::Int(0)],
+        ];
+        let world = World { tables: vec![t0, t1], rows: vec![rows0, rows1] };
+        self.build_rest(t, cfg, world)
+    }
 
-impl Check for C24 {
-    type Case = Case;
-    fn id(&self) -> &'static str {
-        "C24"
-    }
-    fn rule(&self) -> String {
-        "world = 1-3 tables x 2-4 columns (INTEGER/BIGINT/SMALLINT/VARCHAR/CHAR/DOUBLE/REAL/NUMERIC, optional PK) x 0-8 rows from vcore::sql::gen with one cell in six replaced by a taught extreme \
-         (i64/i32/i16 bounds, 2^53+1, sqrt(i64::MAX), 1e308, empty / multi-byte strings), 0-2 CREATE [UNIQUE] INDEX, history of 0-3 well-typed INSERT/UPDATE/DELETE/DDL/transaction statements, then ONE wild \
-         statement built without typing discipline: SELECT with arbitrary operand types, 80 functions with arity off by one, CAST to 26 type forms, SUBSTRING/TRIM/POSITION/INTERVAL/window forms, \
-         LIMIT/OFFSET/ORDER BY position at extremes, range predicates on indexed columns with bounds at the extremes, aggregates over extreme values, division/MOD by zero, INSERT with wrong arity or \
-         types, UPDATE/DELETE, DDL on existing/missing objects, set operations with mismatching arity, transactions; or a typed integer expression over + - * and unary minus (literals <= i64::MAX and integer columns) \
-         / SUM over such an expression with optional GROUP BY, evaluated exactly in i128 by the harness. Oracle: every statement returns Ok/Err (panic => failure with file+message signature); afterwards \
-         SELECT COUNT(*) on every table and CREATE TABLE/INSERT/SELECT on a fresh table succeed; integer expressions and SUM return the exact value, an exactly equal float, NULL or an error. \
-         Non-trivial = the wild statement parsed and reached the executor and carries a taught extreme or a deliberate type/arity/missing-object error (or is an exactness case). Distinct = hash of the case."
-            .into()
-    }
-    fn assumptions(&self) -> Vec<String> {
-        vec![
-            "build profile `verif`: overflow checks and debug assertions are ON, so an unchecked integer overflow shows up as a panic here; a plain release build would continue with the wrapped value (stated in each finding)".into(),
-            "statements go through vcore::engine::exec_stmt (the dispatcher mirrored from the repo's CLI/server/sqllogictest adapters) on the worker's main thread (8 MiB stack)".into(),
-            "exactness model reads the stored integer values through the storage API (Table::scan), not through the executor under test".into(),
-            "watchdog: 5 s of CPU time per case inside the worker (ITIMER_PROF => hang.cpu.*), plus vcore's wall-clock watchdog (30 s, confirmed twice with 60 s => hang)".into(),
-        ]
-    }
-    fn cases(&self, tier: Tier) -> u64 {
-        match tier {
-            Tier::Quick => 40_000,
-            Tier::Thorough => 2_000_000,
-        }
-    }
-    fn tape_len(&self, _t: Tier) -> usize {
-        700
-    }
-    fn isolated(&self) -> bool {
-        true
-    }
-    fn timeout_s(&self) -> u64 {
-        30
-    }
-    fn floors(&self) -> Vec<(&'static str, f64)> {
-        vec![("reached_execution", 0.5), ("has_extreme_or_type_error", 0.4), ("exact:checked", 0.03)]
-    }
-    fn build(&self, t: &mut Tape, cfg: &GenCfg) -> Case {
-        let mut world = gen_world(t, &WorldCfg { profile: Profile::IntStrFloat, max_rows: 8, pk_chance: (1, 3), not_null_chance: (1, 4), ..Default::default() });
+    fn build_rest(&self, t: &mut Tape, cfg: &GenCfg, world: World) -> Case {
         let no_arith = avoiding_group(cfg, "int_overflow");
         let ascii_only = avoiding_group(cfg, "nonascii_store");
         let tame_sum = no_arith || avoiding_group(cfg, "sum_extreme");
-        spice_world(t, &mut world, ascii_only);
         let mut excluded = no_arith as u32 + ascii_only as u32;
         let table_has_extreme = |tb: usize| world.rows[tb].iter().flatten().any(|v| matches!(v, V::Int(i) if i.unsigned_abs() >= (1 << 31)));
         let table_small = |tb: usize| world.rows[tb].iter().flatten().all(|v| !matches!(v, V::Int(i) if i.unsigned_abs() > 1000));
@@ -1441,6 +1443,60 @@ impl Check for C24 {
             break (wild, feats);
         };
         Case { world, indexes, history, wild, feats, excluded, raw_setup: None }
+    }
+}
+
+fn triggers_hit(cfg: &GenCfg, feats: &[String]) -> bool {
+    let has = |need: &[&str]| need.iter().all(|n| feats.iter().any(|f| f == n));
+    KNOWN_TRIGGERS.iter().any(|(sig, need)| cfg.avoiding(sig) && has(need)) || GROUP_TRIGGERS.iter().any(|(g, need)| avoiding_group(cfg, g) && has(need))
+}
+
+impl Check for C24 {
+    type Case = Case;
+    fn id(&self) -> &'static str {
+        "C24"
+    }
+    fn rule(&self) -> String {
+        "world = 1-3 tables x 2-4 columns (INTEGER/BIGINT/SMALLINT/VARCHAR/CHAR/DOUBLE/REAL/NUMERIC, optional PK) x 0-8 rows from vcore::sql::gen with one cell in six replaced by a taught extreme \
+         (i64/i32/i16 bounds, 2^53+1, sqrt(i64::MAX), 1e308, empty / multi-byte strings), 0-2 CREATE [UNIQUE] INDEX, history of 0-3 well-typed INSERT/UPDATE/DELETE/DDL/transaction statements, then ONE wild \
+         statement built without typing discipline: SELECT with arbitrary operand types, 80 functions with arity off by one, CAST to 26 type forms, SUBSTRING/TRIM/POSITION/INTERVAL/window forms, \
+         LIMIT/OFFSET/ORDER BY position at extremes, range predicates on indexed columns with bounds at the extremes, aggregates over extreme values, division/MOD by zero, INSERT with wrong arity or \
+         types, UPDATE/DELETE, DDL on existing/missing objects, set operations with mismatching arity, transactions; or a typed integer expression over + - * and unary minus (literals <= i64::MAX and integer columns) \
+         / SUM over such an expression with optional GROUP BY, evaluated exactly in i128 by the harness. Oracle: every statement returns Ok/Err (panic => failure with file+message signature); afterwards \
+         SELECT COUNT(*) on every table and CREATE TABLE/INSERT/SELECT on a fresh table succeed; integer expressions and SUM return the exact value, an exactly equal float, NULL or an error. \
+         Non-trivial = the wild statement parsed and reached the executor and carries a taught extreme or a deliberate type/arity/missing-object error (or is an exactness case). Distinct = hash of the case."
+            .into()
+    }
+    fn assumptions(&self) -> Vec<String> {
+        vec![
+            "build profile `verif`: overflow checks and debug assertions are ON, so an unchecked integer overflow shows up as a panic here; a plain release build would continue with the wrapped value (stated in each finding)".into(),
+            "statements go through vcore::engine::exec_stmt (the dispatcher mirrored from the repo's CLI/server/sqllogictest adapters) on the worker's main thread (8 MiB stack)".into(),
+            "exactness model reads the stored integer values through the storage API (Table::scan), not through the executor under test".into(),
+            "watchdog: 5 s of CPU time per case inside the worker (ITIMER_PROF => hang.cpu.*), plus vcore's wall-clock watchdog (30 s, confirmed twice with 60 s => hang)".into(),
+        ]
+    }
+    fn cases(&self, tier: Tier) -> u64 {
+        match tier {
+            Tier::Quick => 40_000,
+            Tier::Thorough => 2_000_000,
+        }
+    }
+    fn tape_len(&self, _t: Tier) -> usize {
+        700
+    }
+    fn isolated(&self) -> bool {
+        true
+    }
+    fn timeout_s(&self) -> u64 {
+        30
+    }
+    fn floors(&self) -> Vec<(&'static str, f64)> {
+        vec![("reached_execution", 0.5), ("has_extreme_or_type_error", 0.4), ("exact:checked", 0.03)]
+    }
+    fn build(&self, t: &mut Tape, cfg: &GenCfg) -> Case {
+        let mut world = gen_world(t, &WorldCfg { profile: Profile::IntStrFloat, max_rows: 8, pk_chance: (1, 3), not_null_chance: (1, 4), ..Default::default() });
+        spice_world(t, &mut world, avoiding_group(cfg, "nonascii_store"));
+        self.build_rest(t, cfg, world)
     }
     fn render(&self, c: &Case) -> String {
         let mut s = setup_sql(c).join(";\n");
